@@ -18,7 +18,7 @@ RULE = ("E1: columns A,B,C with domains (2,3,2)/(3,2,2); data = every multiset o
         "data sets, seeds {0,1}, max_iter 1..4: observed-data log-likelihood (brute force over the latent) non-decreasing; "
         "no latent => equals MLE. non-trivial = distinct (data, node, parents) with an unseen parent configuration, an "
         "unseen declared state, or >=2 parents")
-BOUNDS = {"quick": "multisets of <=3 rows on domain (2,3,2) (454) and <=2 rows on (3,2,2) (90), 5 covering DAGs, 6 estimator configs; model.fit on all 25 DAGs x 6 variants for ~20 data sets per domain; EM 20 data sets x 8 structures (3 with two latent variables) x {2 seeds, explicit init_cpds} x max_iter 0..4 (latent cardinality 3 on every 4th)",
+BOUNDS = {"quick": "multisets of <=3 rows on domain (2,3,2) (454) and <=2 rows on (3,2,2) (90), 5 covering DAGs, 6 estimator configs; model.fit on all 25 DAGs x 6 variants for ~20 data sets per domain; EM 20 data sets x 8 structures (3 with two latent variables) x {2 seeds, explicit init_cpds} x max_iter 1..4 (latent cardinality 3 on every 4th)",
           "thorough": "multisets of <=4 rows; model.fit on all 25 DAGs for all data sets; EM latent cardinality 3"}
 EXHAUSTIVE = {"quick": True, "thorough": True}
 ASSUMPTIONS = ["plain str columns are not used (rejected by preprocess_data in the pinned pandas); int and categorical columns are",
